@@ -181,7 +181,9 @@ def rsa_cases(rng, tier, pad, bits_list):
                     if pad == "basic":
                         muts += ["em=" + (b"\xff" + h).hex(), "em=" + (b"\x01\xff" + h).hex(), "em=" + (b"\xfe" + h).hex(),
                                  "em=" + (b"\xff" + h + b"\x00").hex(), "em=" + (b"\xff" + h + rmsg(rng, 4)).hex(),
-                                 "em=" + (b"\xff" + h[:-1]).hex(), "em=" + (b"\xff\xff" + h).hex(), "em=" + h.hex()]
+                                 "em=" + (b"\xff" + h[:-1]).hex(), "em=" + (b"\xff\xff" + h).hex(), "em=" + h.hex(),
+                                 # payload longer than the verifier's stack buffer (max(msg_len, 32) + 8 bytes)
+                                 "em=" + (b"\xff" + h + bytes(range(1, k - 40))).hex()]
                     muts += ["f=%d:%s" % (1 - flag, hx(h if flag == 0 else m)), "f=%d:%s" % (1 - flag, hx(m))]
                     if flag == 0 and not brief:
                         # digest-length variants in pre-hashed mode.  PSS: only the empty one - for 0 < len != 32 cp_rsa_ver
